@@ -246,6 +246,15 @@ func runC08(r *Run) {
 				tpls = append(tpls, tpls[i].New())
 				loaded = append(loaded, false)
 				obs = append(obs, L())
+			case x < 3 && rr.Intn(3) == 0:
+				// the View shim: a template loaded from this one and filled with the view's data - the same as Load then Fill
+				f := Pick(rr, []string{"page1.vuego", "page2.vuego"})
+				d := mkData().Normalize()
+				ops = append(ops, c08Op{kind: "load", i: i, file: f}, c08Op{kind: "fill", i: len(tpls), data: d})
+				tpls = append(tpls, vuego.View[any](tpls[i], f, d.Go()))
+				loaded = append(loaded, true)
+				obs = append(obs, L(), L())
+				readAll()
 			case x < 3:
 				f := Pick(rr, []string{"page1.vuego", "page2.vuego"})
 				ops = append(ops, c08Op{kind: "load", i: i, file: f})
